@@ -17,7 +17,7 @@ THEOREMS = ["C09_flatten", "C09_flatten_closed_form", "C09_below", "C09_below_pe
             "C09_flatten_closed_form_fiber", "C09_flatten_wf", "C09_model_meets_spec_flatten_root", "C09_below_wf", "C09_descents_compose", "C09_unflatten_wf",
             "C09_swap_wf", "C09_swap_post", "C09_unflatten_flatten_fiber", "C09_split_flatten_fiber", "C09_sq_sums", "C09_merge_groups", "C09_merge_to_fibertree", "C09_merge_level",
             "C09_merge_levels", "C09_merge_point_maps", "C09_below_sq", "C09_content_ok_of_sq",
-            "C09_model_meets_spec", "C09_model_meets_spec_region0",
+            "C09_oracle_sound_mfn", "C09_merge_functions", "C09_model_meets_spec", "C09_model_meets_spec_non_merge",
             "C09_order", "C09_oracle_sound", "C09_observation_pipeline"]
 COQ_IMPORTS = "From FT Require Import Model.Base Model.Obs Model.C09Transform Model.C09Check."
 CHECK_VO = ["Model/C09Check.v"]
@@ -33,7 +33,8 @@ RULE = ("case = (tensor tree of depth 2-4 with int coordinates inside the shape;
         "coordinates), sub-trees appended from slices or deep copies of slices of a donor tensor - followed by real "
         "mutations: getPayloadRef(point) <<= default for every explicit default, clear() of a populated sub-fiber "
         "for every empty sub-fiber; one operation: swizzle(perm), swizzle then inverse, swap(depth), swap twice, "
-        "flatten(depth, levels, tuple|pair|linear), merge(depth, levels, absolute|relative), unflatten(flatten), "
+        "flatten(depth, levels, tuple|pair|linear), merge(depth, levels, absolute|relative, merge_fn sum|max|min; values "
+        "of both signs so that max != sum != min), unflatten(flatten), "
         "flatten-absolute(splitUniform(step))); observation = the result's raw coords/payloads tree (tuple "
         "coordinates keep their nesting, leaf boxing checked) and len(Rank.getFibers()) of every rank, or the "
         "exception. distinct = distinct canonical JSON; non-trivial = the operand has at least two stored points")
@@ -46,11 +47,12 @@ TRUSTED = ["Coq 8.16.1 kernel (coqc; coqchk in the thorough tier); vm_compute us
            "nesting is restored by the observation encoder from the style and compared exactly"]
 ASSUMPTIONS = ["operand coordinates are Python ints inside the authoritative shape (tuple coordinates only arise "
                "as outputs of flatten and inputs of unflatten)",
-               "mergeRanks is exercised with the default merge_fn (sum) and leaf default 0",
+               "mergeRanks is exercised with merge_fn in {default sum, max, min} (callables on the list of colliding leaf payloads) and leaf default 0; C09_model_meets_spec covers merge_fn = sum, max/min are decided by oracle + correspondence",
                "Rank.getFibers() of the operand lists the fibers of its level (C02): the all-empty guards of "
                "Tensor.swapRanks/unflattenRanks are modelled on the tree level"]
 EXPLANATION = ("theorems: C09_model_meets_spec - for every well-formed case (all 8 operations, every depth, number of "
-               "levels and style) the faithful model's observation satisfies the oracle; clause theorems: swizzle = sort of "
+               "levels and style; merge_fn = sum) the faithful model's observation satisfies the oracle; merges with max/min are "
+               "decided by the executable model + the max/min oracle (C09_oracle_sound_mfn) on every case; clause theorems: swizzle = sort of "
                "the permuted points (+ inverse, + well-formedness), swap = transposition at any depth, flatten tuple/pair/"
                "linear content and order, unflatten inverts flatten, flatten-absolute of split restores, merge absolute/"
                "relative adds colliding points up (grouping loop, _mergeToFibertree union recursion, any levels), the "
@@ -58,6 +60,7 @@ EXPLANATION = ("theorems: C09_model_meets_spec - for every well-formed case (all
                "implementation's result")
 
 STYLES = {"tuple": 0, "pair": 1, "linear": 2, "absolute": 3, "relative": 4}
+MFNS = {"sum": 0, "max": 1, "min": 2}        # merge_fn: None (default sum) / lambda ps: max(ps) / lambda ps: min(ps)
 
 
 # ------------------------------------------------------------------ generator (pure)
@@ -115,6 +118,8 @@ def gen_op(rng, n, shapes, d, kind=None):
         st = rng.choice(["absolute", "relative"])
     else:
         st = rng.choice(["tuple", "pair"])
+    if kind == "merge":
+        return [kind, dep, lev, st, rng.choice(["sum", "max", "min"])]
     return [kind, dep, lev, st]
 
 
@@ -123,7 +128,7 @@ def gen_case(rng, depth=None, kind=None):
     shapes = [rng.randint(1, 4 if n > 2 else 5) for _ in range(n)]
     d = rng.choice([0, 0, 0, 0, 3, U.NONE_D])      # NONE_D: the implementation gets default=None (nothing is empty)
     pa = rng.choice([0.0, 0.15, 0.3, 0.45, 0.6, 0.6, 0.95]) if n < 4 else rng.choice([0.3, 0.45, 0.6, 0.7, 0.95])
-    vals = (0, 9) if d == U.NONE_D else (1, 9)       # with default None a stored 0 is an ordinary value
+    vals = (0, 9) if d == U.NONE_D else (-9, 9) if (d == 0 and rng.random() < 0.35) else (1, 9)   # default None: 0 is a value; negatives: max != sum != min
     pz = 0.0 if d == U.NONE_D else None               # None is not a value one stores
     t = U.gen_fiber(rng, n, shapes, d, p_absent=pa, p_zero=pz, vals=vals)
     if U.tree_size(t) > 70:
@@ -166,7 +171,7 @@ def streams(tier, rng):
             ops += [["swap", dep], ["swapswap", dep]]
             for lev in range(1, depth - dep):
                 ops += [["flatten", dep, lev, s] for s in ("tuple", "pair", "linear")]
-                ops += [["merge", dep, lev, s] for s in ("absolute", "relative")]
+                ops += [["merge", dep, lev, s, m] for s in ("absolute", "relative") for m in ("sum", "max", "min")]
                 ops += [["flatunflat", dep, lev, s] for s in ("tuple", "pair")]
         for _ in range(reps):
             c0 = gen_case(rng, depth)
@@ -195,9 +200,26 @@ def streams(tier, rng):
         base, muts = canon_and_muts(rng, t, 4, shapes, d)
         op = rng.choice([["flatten", 0, 3, "tuple"], ["flatten", 0, 3, "pair"], ["flatunflat", 0, 3, "tuple"],
                          ["flatunflat", 0, 3, "pair"], ["flatten", 0, 3, "linear"]]
-                        + ([["merge", 0, 3, "relative"]] if d == 0 else [["flatten", 1, 2, "tuple"]]))
+                        + ([["merge", 0, 3, "relative", rng.choice(["sum", "max", "min"])]] if d == 0
+                           else [["flatten", 1, 2, "tuple"]]))
         cases.append({"tree": t, "base": base, "muts": muts, "build": "fiber", "d": d, "shape": shapes, "op": op})
     yield ("deep-flatten-empties", cases, False)
+    # merges with many colliding points: dense trees, few coordinates in the merged ranks, every
+    # (depth, levels, style, merge_fn); negative values too, so that max != sum != min
+    cases = []
+    for _ in range(360 if tier == "quick" else 6000):
+        n = rng.choice([2, 3, 3, 4, 4])
+        shapes = [rng.randint(2, 3) for _ in range(n)]
+        vals = rng.choice([(1, 9), (-9, 9), (-5, -1)])
+        t = U.gen_fiber(rng, n, shapes, 0, p_absent=rng.choice([0.0, 0.2, 0.4]), p_zero=rng.choice([0.0, 0.2]),
+                        p_emptysub=rng.choice([0.0, 0.2]), vals=vals)
+        base, muts = canon_and_muts(rng, t, n, shapes, 0)
+        dep = rng.randint(0, n - 2)
+        lev = rng.randint(1, n - 1 - dep)
+        op = ["merge", dep, lev, rng.choice(["absolute", "relative"]), rng.choice(["sum", "max", "max", "min", "min"])]
+        cases.append(fit_build({"tree": t, "base": base, "muts": muts, "build": rng.choice(["fiber", "unc", "grow", "graft"]),
+                                "d": 0, "shape": shapes, "op": op}, rng))
+    yield ("merge-fn", cases, False)
     if tier == "thorough":
         # exhaustive small scope: depth 2, shape 2x2, per coordinate absent/default/value (leaf)
         # and absent/empty/populated (interior), x every operation
@@ -206,7 +228,8 @@ def streams(tier, rng):
         subs = [None] + leafs
         ops = [["swizzle", [1, 0]], ["swizzle_inv", [1, 0]], ["swap", 0], ["swapswap", 0],
                ["flatten", 0, 1, "tuple"], ["flatten", 0, 1, "pair"], ["flatten", 0, 1, "linear"],
-               ["merge", 0, 1, "absolute"], ["merge", 0, 1, "relative"], ["flatunflat", 0, 1, "tuple"],
+               ["merge", 0, 1, "absolute", "sum"], ["merge", 0, 1, "relative", "sum"], ["merge", 0, 1, "absolute", "max"],
+               ["merge", 0, 1, "relative", "min"], ["flatunflat", 0, 1, "tuple"],
                ["splitflat", 0, 1], ["splitflat", 1, 2], ["splitflat", 0, 2]]
         for a, b_ in itertools.product(subs, subs):
             t = ([[0, a]] if a is not None else []) + ([[1, b_]] if b_ is not None else [])
@@ -224,6 +247,7 @@ def nontrivial(case):
 def describe(case):
     return {"depth": len(case["shape"]), "op": case["op"][0],
             "style": case["op"][3] if len(case["op"]) > 3 else "-",
+            "merge_fn": case["op"][4] if case["op"][0] == "merge" else "-",
             "explicit_default": U.has_explicit_default(case["tree"], case["d"]),
             "empty_subfiber": U.has_empty_sub(case["tree"], case["d"]),
             "empty_tensor": not U.content(case["tree"], case["d"]),
@@ -242,7 +266,9 @@ def op_to_coq(o):
         return "(OSwapSwap %s)" % L.nat(o[1])
     if k == "splitflat":
         return "(OSplitFlat %s %s)" % (L.nat(o[1]), L.z(o[2]))
-    ctor = {"flatten": "OFlatten", "merge": "OMerge", "flatunflat": "OFlatUnflat"}[k]
+    if k == "merge":
+        return "(OMerge %s %s %s %s)" % (L.nat(o[1]), L.nat(o[2]), L.z(STYLES[o[3]]), L.z(MFNS[o[4]]))
+    ctor = {"flatten": "OFlatten", "flatunflat": "OFlatUnflat"}[k]
     return "(%s %s %s %s)" % (ctor, L.nat(o[1]), L.nat(o[2]), L.z(STYLES[o[3]]))
 
 
@@ -374,7 +400,8 @@ def apply_op(T, o):
     if k == "flatten":
         return T.flattenRanks(depth=o[1], levels=o[2], coord_style=o[3])
     if k == "merge":
-        return T.mergeRanks(depth=o[1], levels=o[2], coord_style=o[3])
+        fn = {"sum": None, "max": (lambda ps: max(ps)), "min": (lambda ps: min(ps))}[o[4]]
+        return T.mergeRanks(depth=o[1], levels=o[2], coord_style=o[3], merge_fn=fn)
     if k == "flatunflat":
         return T.flattenRanks(depth=o[1], levels=o[2], coord_style=o[3]).unflattenRanks(depth=o[1], levels=o[2])
     if k == "splitflat":
